@@ -6,7 +6,7 @@ from .common import Check, read_keyed, ROOT
 
 def nontrivial(case_line, model_line):
     k = case_line[0]
-    if k in ("H", "G", "B", "T"):
+    if k in ("H", "G", "B", "T", "Y"):
         flags = model_line.split(" ")[2] if len(model_line.split(" ")) > 2 else ""
         return "0" in flags and "1" in flags
     return k == "S"
@@ -28,7 +28,7 @@ def main(tier, replay=None):
                 l = l.strip()
                 if l.startswith("case: "):
                     l = l[6:]
-                if l[:2] in ("H ", "B ", "G ", "S ", "V ", "T "):
+                if l[:2] in ("H ", "B ", "G ", "S ", "V ", "T ", "Y "):
                     f.write(l + "\n")
     else:
         import subprocess
@@ -58,6 +58,7 @@ def main(tier, replay=None):
     # --- monitor: the extracted executable property on the implementation's outputs
     spec_in = os.path.join(rd, "spec.in")
     n_mon = 0
+    ymap = {}
     with open(spec_in, "w") as f:
         for key, cl in case_by_key.items():
             fl = cl.split(" ")
@@ -73,13 +74,53 @@ def main(tier, replay=None):
             elif fl[0] == "B" and key in impl:
                 f.write(cl + " " + impl[key].split(" ")[2] + "\n")
                 n_mon += 1
+            elif fl[0] == "Y" and key in impl:
+                # the group-table monitor on the authentic messages only (fabric 1)
+                ops = fl[2].split(",")
+                ifl = impl[key].split(" ")[2] if len(impl[key].split(" ")) > 2 else ""
+                auth = [(o, ifl[i:i + 1]) for i, o in enumerate(ops) if o.startswith("a:")]
+                if auth and all(x in ("0", "1") for _, x in auth):
+                    f.write("G y%s %s %s\n" % (fl[1], ",".join("1:" + o[2:] for o, _ in auth), "".join(x for _, x in auth)))
+                    ymap["G y" + fl[1]] = key
+                n_mon += 1
     spec_out = c.run_sharded([driver, "<"], spec_in, os.path.join(rd, "spec.out"), argv_suffix=["spec"])
     spec = read_keyed(spec_out)
     mon_viol = 0
+    # the real group receive path: a message that does not authenticate is refused and leaves no trace
+    for key, cl in case_by_key.items():
+        if cl[0] != "Y" or key not in impl:
+            continue
+        ops = cl.split(" ")[2].split(",")
+        ifl = impl[key].split(" ")[2] if len(impl[key].split(" ")) > 2 else ""
+        bad = [i for i, o in enumerate(ops) if (not o.startswith("a:") and ifl[i:i + 1] != "x") or (o.startswith("a:") and ifl[i:i + 1] not in ("0", "1"))]
+        if bad:
+            mon_viol += 1
+            if mon_viol <= 3:
+                i = bad[0]
+                c.violation("group-rx-path", "\n".join([
+                    "property C04 fails on the real group receive path (TransportRunner::decode_packet, one fabric, one group key):",
+                    "case (a = authentic, f/t/w = does not authenticate; kind:source node:counter): " + cl,
+                    "implementation (1 accepted, 0 duplicate, x refused): " + ifl,
+                    "operation %d (%s): %s" % (i, ops[i], "a message that does not authenticate was not refused" if not ops[i].startswith("a:") else "an authentic message was refused with an error other than duplicate"),
+                    "replay: bin/check C04 quick --replay <file containing the case line>"]))
     def hist_len(key):
+        if key in ymap:
+            return len(case_by_key[ymap[key]].split(" ")[-1])
         f = case_by_key[key].split(" ")
         return len(f[-1]) if f[0] in ("H", "T", "G") else len(f[3])
     for key, sl in sorted(spec.items(), key=lambda kv: hist_len(kv[0])):
+        if key in ymap:
+            if sl.split(" ")[2] != "1":
+                mon_viol += 1
+                if mon_viol <= 3:
+                    yk = ymap[key]
+                    c.violation("group-rx-path", "\n".join([
+                        "property C04 fails on the real group receive path: among the AUTHENTIC messages of a sender a counter was accepted twice, "
+                        "or a counter newer than everything accepted from that sender was rejected (e.g. because a forged message had moved the sender's window):",
+                        "case (a = authentic, f/t/w = does not authenticate; kind:source node:counter): " + case_by_key[yk],
+                        "implementation (1 accepted, 0 duplicate, x refused): " + impl[yk].split(" ")[2],
+                        "replay: bin/check C04 quick --replay <file containing the case line>"]))
+            continue
         il = impl.get(key)
         if il is None:
             continue
